@@ -1,22 +1,28 @@
 import FiberModel.C19.Spec
 /-
-C19 — property theorems (only). Quantified over every configuration `New` accepts, every
-`AllowOriginsFunc`, every request.
+C19 — property theorems about the handler (only), relative to what the constructor stored.
+Quantified over every constructor state, every `AllowOriginsFunc` (panicking or not), every `Next`,
+every request, every `Vary` an earlier middleware left and every `c.Vary` of the downstream handler.
+The step from the constructor state to the configuration TEXT is `Origin.lean`; the main theorem
+over the text, `handle_meets_spec`, is in `Main.lean`.
 -/
 namespace C19
 open B
 
-/-- `allowOrigin` is `*` when all origins are allowed, otherwise empty or a permitted origin. -/
-theorem allowOrigin_cases (bt : Built) (o : Bytes) :
-    (bt.allowAll = true ∧ allowOrigin bt o = b "*") ∨
-    (bt.allowAll = false ∧ (allowOrigin bt o = [] ∨ (allowOrigin bt o = o ∧ o ≠ [] ∧ permitted bt o = true))) := by
-  unfold allowOrigin permitted
+/-- `allowOrigin`: `*` when all origins are allowed; otherwise a panic of the allow function (only
+    when no list entry matched), nothing, or the origin itself (then non-empty and permitted). -/
+theorem allowOrigin_cases (bt : Built) (o : Bytes) (ho : o ≠ []) :
+    (bt.allowAll = true ∧ allowOrigin bt o = some (b "*")) ∨
+    (bt.allowAll = false ∧
+      ((allowOrigin bt o = none ∧ listAllows bt o = false ∧ ∃ f, bt.cfg.allowFunc = some f ∧ f o = none) ∨
+       allowOrigin bt o = some [] ∨
+       (allowOrigin bt o = some o ∧ o ≠ [] ∧ permitted bt o = true))) := by
+  unfold allowOrigin permitted permittedW listAllows
   cases hA : bt.allowAll <;> simp
-  by_cases ho : o = []
-  · subst ho; cases hf : bt.cfg.allowFunc <;> simp <;> split <;> simp
   · cases hO : bt.origins.contains o <;> cases hS : bt.subs.any (·.match o) <;>
       cases hf : bt.cfg.allowFunc <;> simp_all
-    all_goals (try (rename_i f; cases hfo : f o <;> simp_all))
+    rename_i f
+    rcases hfo : f o with _ | _ | _ <;> simp_all
 
 theorem simpleAcao_cases (cfg : Config) (a : Bytes) :
     ((simpleAcao cfg a).1 = none ∧ (simpleAcao cfg a).2 = false) ∨
@@ -26,88 +32,97 @@ theorem simpleAcao_cases (cfg : Config) (a : Bytes) :
 
 theorem star_ne_nil : b "*" ≠ [] := by decide
 
-/-- The CORS headers of the reply are absent or come from `setSimpleHeaders`. -/
+/-- The CORS headers of the reply are absent or come from `setSimpleHeaders` on the decision. -/
 theorem handle_acao (bt : Built) (q : Request) :
     ((handle bt q).acao = none ∧ (handle bt q).acac = false) ∨
-    ((handle bt q).acao = (simpleAcao bt.cfg (allowOrigin bt (toLower q.origin))).1 ∧
-     (handle bt q).acac = (simpleAcao bt.cfg (allowOrigin bt (toLower q.origin))).2) := by
+    (∃ a, toLower q.origin ≠ [] ∧ allowOrigin bt (toLower q.origin) = some a ∧
+      (handle bt q).acao = (simpleAcao bt.cfg a).1 ∧ (handle bt q).acac = (simpleAcao bt.cfg a).2) := by
   unfold handle
-  by_cases h0 : q.skip = true <;> by_cases h1 : toLower q.origin = [] <;> by_cases h2 : q.method = OPTIONS <;>
-    by_cases h3 : q.acrMethod = [] <;> simp [h0, h1, h2, h3]
-
-/-- clause 1 for the model -/
-theorem acao_only_if_allowed (bt : Built) (q : Request) : acaoOK bt q (handle bt q) = true := by
-  unfold acaoOK
-  rcases handle_acao bt q with ⟨h, _⟩ | ⟨h, _⟩
-  · simp [h]
-  · rw [h]
-    rcases simpleAcao_cases bt.cfg (allowOrigin bt (toLower q.origin)) with ⟨h1, _⟩ | ⟨h1, hne, _⟩
-    · simp [h1]
-    · simp only [h1]
-      rcases allowOrigin_cases bt (toLower q.origin) with ⟨hA, hv⟩ | ⟨hA, hv | ⟨hv, hn, hp⟩⟩
-      · simp [hA, hv]
-      · exact absurd hv hne
-      · simp [hA, hv, hn, hp]
-
-/-- clause 2 for the model: `Access-Control-Allow-Credentials` is never paired with `*` -/
-theorem never_star_with_credentials (bt : Built) (q : Request) : credsOK bt (handle bt q) = true := by
-  unfold credsOK
-  rcases handle_acao bt q with ⟨_, h⟩ | ⟨h, h'⟩
-  · simp [h]
-  · rw [h, h']
-    rcases simpleAcao_cases bt.cfg (allowOrigin bt (toLower q.origin)) with ⟨h1, h2⟩ | ⟨h1, hne, h2⟩
-    · simp [h2]
-    · cases hh : (simpleAcao bt.cfg (allowOrigin bt (toLower q.origin))).2
-      · simp
-      · have := h2 hh; simp [h1, this]
-
-/-- clause 3 for the model -/
-theorem vary_origin_when_varies (bt : Built) (q : Request) : varyOK bt q (handle bt q) = true := by
-  unfold varyOK handle
-  cases hA : bt.allowAll <;> cases hs : q.skip <;> simp
-  repeat' split
-  all_goals simp [vOrigin, vACRM, vACRH, vACRPN]
-
-/-- clause 0 for the model -/
-theorem next_skips_middleware (bt : Built) (q : Request) : skipOK q (handle bt q) = true := by
-  unfold skipOK handle
-  cases hs : q.skip <;> simp
-
-/-- clause 4 for the model -/
-theorem preflight_204_configured (bt : Built) (q : Request) : preflightOK bt q (handle bt q) = true := by
-  unfold preflightOK isPreflight handle
-  by_cases h0 : q.skip = true
+  by_cases h0 : skipped bt.cfg q = true
   · simp [h0]
   by_cases h1 : toLower q.origin = []
   · simp [h0, h1]
-  · by_cases h2 : q.method = OPTIONS
-    · by_cases h3 : q.acrMethod = []
-      · simp [h0, h1, h2, h3]
-      · simp [h0, h1, h2, h3]
-    · simp [h0, h1, h2]
+  by_cases h2 : q.method = OPTIONS <;> by_cases h3 : q.acrMethod = [] <;>
+    cases h4 : allowOrigin bt (toLower q.origin) <;> simp [h0, h1, h2, h3, h4]
 
-/-- **Main theorem.** The handler meets every clause of the property, for every built
-    configuration (any origin lists, any allow function) and every request. -/
-theorem handle_meets_spec (bt : Built) (q : Request) : specViolation bt q (handle bt q) = none := by
-  unfold specViolation
-  simp [next_skips_middleware, acao_only_if_allowed, never_star_with_credentials, vary_origin_when_varies, preflight_204_configured]
+/-- clause 1 for the model -/
+theorem acao_only_if_allowed (bt : Built) (q : Request) :
+    acaoOK bt.allowAll (listAllows bt) bt.cfg q (handle bt q) = true := by
+  unfold acaoOK
+  rcases handle_acao bt q with ⟨h, _⟩ | ⟨a, hne0, ha, h, _⟩
+  · simp [h]
+  · rw [h]
+    rcases simpleAcao_cases bt.cfg a with ⟨h1, _⟩ | ⟨h1, hne, _⟩
+    · simp [h1]
+    · simp only [h1]
+      rcases allowOrigin_cases bt (toLower q.origin) hne0 with ⟨hA, hv⟩ | ⟨hA, ⟨hv, _⟩ | hv | ⟨hv, hn, hp⟩⟩
+      · rw [ha] at hv; cases hv; simp [hA]
+      · rw [ha] at hv; cases hv
+      · rw [ha] at hv; cases hv; exact absurd rfl hne
+      · rw [ha] at hv; cases hv
+        have hp' : permittedW (listAllows bt) bt.cfg (toLower q.origin) = true := hp
+        simp [hA, hn, hp']
 
-/-- A configuration with credentials and a wildcard is refused by the constructor. -/
-theorem buildCore_refuses_star_with_credentials (cfg : Config) (bt : Built)
-    (h : buildCore cfg = some bt) : ¬ (bt.cfg.credentials = true ∧ bt.allowAll = true) := by
-  unfold buildCore at h
-  split at h
-  · simp at h
-  · split at h
-    · simp at h
-    · rename_i hc
-      simp only [Option.some.injEq] at h
-      subst h
-      simpa using hc
+/-- clause 2 for the model: `Access-Control-Allow-Credentials` is never paired with `*` -/
+theorem never_star_with_credentials (bt : Built) (q : Request) : credsOK bt.cfg (handle bt q) = true := by
+  unfold credsOK
+  rcases handle_acao bt q with ⟨_, h⟩ | ⟨a, _, _, h, h'⟩
+  · simp [h]
+  · rw [h, h']
+    rcases simpleAcao_cases bt.cfg a with ⟨h1, h2⟩ | ⟨h1, hne, h2⟩
+    · simp [h2]
+    · cases hh : (simpleAcao bt.cfg a).2
+      · simp
+      · have := h2 hh; simp [h1, this]
 
-theorem build_refuses_star_with_credentials (cfg : Config) (dm : List Bytes) (bt : Built)
-    (h : build cfg dm = some bt) : ¬ (bt.cfg.credentials = true ∧ bt.allowAll = true) :=
-  buildCore_refuses_star_with_credentials _ bt h
+/-- clause 0 for the model -/
+theorem next_skips_middleware (bt : Built) (q : Request) : skipOK bt.cfg q (handle bt q) = true := by
+  unfold skipOK handle
+  cases hs : skipped bt.cfg q <;> simp
+
+/-- clause 4 for the model -/
+theorem preflight_204_configured (bt : Built) (q : Request) : preflightOK bt.cfg q (handle bt q) = true := by
+  unfold preflightOK isPreflight handle
+  by_cases h0 : skipped bt.cfg q = true
+  · simp [h0]
+  by_cases h1 : toLower q.origin = []
+  · simp [h0, h1]
+  by_cases h2 : q.method = OPTIONS <;> by_cases h3 : q.acrMethod = [] <;>
+    cases h4 : allowOrigin bt (toLower q.origin) <;> simp [h0, h1, h2, h3, h4]
+
+/-- clause 5 for the model: the handler dies only inside an allow function that was due and panics -/
+theorem func_panic_only_when_due (bt : Built) (q : Request) :
+    panicOK bt.allowAll (listAllows bt) bt.cfg q (handle bt q) = true := by
+  unfold panicOK
+  by_cases hp : (handle bt q).panicked = true
+  · -- only the allowOrigin = none branch sets `panicked`
+    have key : skipped bt.cfg q = false ∧ toLower q.origin ≠ [] ∧ ¬ (q.method = OPTIONS ∧ q.acrMethod = []) ∧
+        allowOrigin bt (toLower q.origin) = none := by
+      unfold handle at hp
+      by_cases h0 : skipped bt.cfg q = true
+      · simp [h0] at hp
+      by_cases h1 : toLower q.origin = []
+      · simp [h0, h1] at hp
+      by_cases h23 : q.method = OPTIONS ∧ q.acrMethod = []
+      · simp [h0, h1, h23] at hp
+      cases h4 : allowOrigin bt (toLower q.origin) with
+      | none => exact ⟨by simpa using h0, h1, h23, rfl⟩
+      | some a =>
+        simp only [h0, h1, h23, h4] at hp
+        by_cases h2 : q.method = OPTIONS <;> simp [h2] at hp
+    obtain ⟨k0, k1, k2, k3⟩ := key
+    rcases allowOrigin_cases bt (toLower q.origin) k1 with ⟨_, hv⟩ | ⟨hA, ⟨_, hl, f, hf, hfo⟩ | hv | ⟨hv, _⟩⟩
+    · rw [k3] at hv; cases hv
+    · have k2' : (decide (q.method = OPTIONS) && decide (q.acrMethod = [])) = false := by
+        simpa using k2
+      simp [k0, k1, k2', hA, hl, hf, hfo]
+    · rw [k3] at hv; cases hv
+    · rw [k3] at hv; cases hv
+  · simp [hp]
+
+theorem not_panicked_of_skipped (bt : Built) (q : Request) (h : skipped bt.cfg q = true) :
+    (handle bt q).panicked = false := by
+  unfold handle; simp [h]
 
 /-- `subdomain.match` is sound: the origin starts with the entry's `scheme://` and ends with its
     `.domain` suffix, the two not overlapping. -/
@@ -129,14 +144,29 @@ theorem subdomain_match_sound (s : Subdomain) (o : Bytes) (h : s.match o = true)
   obtain ⟨m, hm⟩ := hsuf
   exact ⟨m, by rw [← hm]; simp⟩
 
-/-- Non-vacuity: a concrete configuration is accepted by `New`, a subdomain origin is allowed and a
-    look-alike is not. -/
-example :
-    (build { allowOrigins := [b "https://*.example.com", b "http://a.io"], allowFunc := none,
-             allowMethods := [], allowHeaders := [], exposeHeaders := [], maxAge := 0,
-             credentials := true, privateNetwork := false } [b "GET"]).map
-      (fun bt => (allowOrigin bt (b "https://x.example.com"), allowOrigin bt (b "https://xexample.com"),
-                  allowOrigin bt (b "http://a.io")))
-      = some (b "https://x.example.com", [], b "http://a.io") := by decide
+/-- and complete: every `pre ++ mid ++ suf` is matched -/
+theorem subdomain_match_complete (s : Subdomain) (mid : Bytes) : s.match (s.pre ++ mid ++ s.suf) = true := by
+  unfold Subdomain.match hasPrefix hasSuffix
+  simp only [Bool.and_eq_true, decide_eq_true_eq]
+  refine ⟨⟨by simp, ?_⟩, ?_⟩
+  · rw [List.isPrefixOf_iff_prefix]; exact ⟨mid ++ s.suf, by simp⟩
+  · rw [List.isSuffixOf_iff_suffix]; exact ⟨s.pre ++ mid, by simp⟩
+
+/-- A configuration with credentials and a wildcard is refused by the constructor. -/
+theorem buildCore_refuses_star_with_credentials (cfg : Config) (bt : Built)
+    (h : buildCore cfg = some bt) : ¬ (bt.cfg.credentials = true ∧ bt.allowAll = true) := by
+  unfold buildCore at h
+  split at h
+  · simp at h
+  · split at h
+    · simp at h
+    · rename_i hc
+      simp only [Option.some.injEq] at h
+      subst h
+      simpa using hc
+
+theorem build_refuses_star_with_credentials (cfg : Config) (dm : List Bytes) (bt : Built)
+    (h : build cfg dm = some bt) : ¬ (bt.cfg.credentials = true ∧ bt.allowAll = true) :=
+  buildCore_refuses_star_with_credentials _ bt h
 
 end C19
